@@ -135,6 +135,25 @@ impl ZmtpEngine {
     &self.config
   }
 
+  /// True while the data-phase framer writes plain ZMTP frames (NULL / PLAIN). With an
+  /// encrypting framer every output is a sealed record with an implicit sequence number, so
+  /// the I/O driver must write the engine's outputs in the order they were produced.
+  pub fn framer_is_passthrough(&self) -> bool {
+    self.framer.is_passthrough()
+  }
+
+  /// Encodes a data-phase control frame (PING / PONG) the way data is encoded: through the
+  /// active framer, so that on an encrypted connection it is a record the peer can open.
+  fn encode_control(&mut self, msg: crate::Msg) -> Result<Bytes, ZmqError> {
+    if self.framer.is_passthrough() {
+      encode_msg(msg)
+    } else {
+      let mut fb = FrameBatch::new();
+      fb.push(msg);
+      self.framer.write_msg_multipart(fb)
+    }
+  }
+
   /// Encode a batch of outgoing logical messages to a single wire `Bytes` (standard path).
   pub fn frame_batch(&mut self, batch: &[FrameBatch]) -> Result<Bytes, ZmqError> {
     self.framer.write_msg_batch(batch)
@@ -243,7 +262,7 @@ impl ZmtpEngine {
           .map(|d| d.as_millis().min(u16::MAX as u128) as u16)
           .unwrap_or(0);
         let ping_msg = ZmtpCommand::create_ping(ttl_ms, &[]);
-        match encode_msg(ping_msg) {
+        match self.encode_control(ping_msg) {
           Ok(data) => {
             out.net_actions.push(NetAction::Send {
               data,
@@ -745,7 +764,7 @@ impl ZmtpEngine {
         match ZmtpCommand::parse(&msg) {
           Some(ZmtpCommand::Ping(ctx)) => {
             let pong = ZmtpCommand::create_pong(&ctx);
-            match encode_msg(pong) {
+            match self.encode_control(pong) {
               Ok(data) => out.net_actions.push(NetAction::Send {
                 data,
                 zc_eligible: false,
